@@ -249,7 +249,7 @@ def run_case(case) -> Outcome:
         for i, (a, b) in enumerate(zip(g1.leaves, g2.leaves)):
             if not out.check((a.grad is None) == (b.grad is None), "grad-noneness-differs", f"leaf {i}"):
                 continue
-            if a.grad is not None and a.grad.numel():
+            if a.grad is not None and a.grad.numel() and out.check(tuple(a.grad.shape) == tuple(b.grad.shape), "grad-shape-differs", f"leaf {i}"):
                 out.within(float((a.grad.double() - b.grad.double()).abs().max()), tol * max(1, n_steps), "accumulated-grad-differs",
                            f"leaf {i}: {a.grad.tolist()} vs {b.grad.tolist()}")
     out.evals = max(1, n_steps)
